@@ -36,7 +36,9 @@ MUST_HIT = ["timeout_between_messages", "observer_busy_at_stop_marker", "zero_de
             "free_running_validation", "three_observers", "tokenizer_started_before_some_observer", "queue_backlog_ge_64",
             "command_observer_many_detections", "player_observer", "real_lazy_file_source", "two_pipelines_side_by_side",
             "saver_name_without_wav_extension", "relative_file_names", "hundreds_of_consecutive_timeouts",
-            "validator_object_passed_to_worker", "clock_at_end_of_second"]
+            "validator_object_passed_to_worker", "clock_at_end_of_second", "overlapping_reader",
+            "reader_with_max_read_and_saver", "tokenizer_with_logger_zero_detections", "stale_temporary_wav_present",
+            "more_than_4096_detections"]
 ASSUMPTIONS = [
     "interleavings are explored at the granularity of queue operations, source reads, observer callbacks, thread start/exit and joins (DESIGN 3.4)",
     "liveness judged under the harness's fair continuation after the generated prefix",
@@ -213,7 +215,27 @@ def trace_classes(run, exp):
     return out
 
 
+def check_free_only(case, rec):
+    """Streams with thousands of detections: free-running threads only (finite source, results judged
+    after the threads have ended)."""
+    run = pipeline.run_pipeline(case, scheduled=False)
+    try:
+        if run.alive:
+            raise Violation(f"threads still alive after the stream ended: {run.alive}", case)
+        exp = pipeline.expected_detections(run.data, case, run.thr)
+        judge_observers(run, case, exp)
+        judge_files(run, case, exp, run.src.handed)
+        classes = {"free_running_validation"}
+        if len(exp) > 4096:
+            classes.add("more_than_4096_detections")
+        rec.note(case, True, classes, out={"detections": len(exp)})
+    finally:
+        pipeline.cleanup(run)
+
+
 def check_case(case, rec):
+    if case.get("free_only"):
+        return check_free_only(case, rec)
     run = pipeline.run_pipeline(case, scheduled=True)
     try:
         judge_threads(run, case)
@@ -236,6 +258,16 @@ def check_case(case, rec):
             classes.add("real_lazy_file_source")
         if case.get("twin"):
             classes.add("two_pipelines_side_by_side")
+        hop_, mr_, _v = pipeline.reader_options(case)
+        if hop_ is not None:
+            classes.add("overlapping_reader")
+        if mr_ is not None:
+            classes.add("reader_with_max_read" + ("_and_saver" if case.get("saver") else ""))
+        if case.get("logger"):
+            classes.add("tokenizer_with_logger" + ("_zero_detections" if not exp else ""))
+        if case.get("stale_tmp") and ((case.get("saver") or {}).get("ext", ".wav") == ".raw" or
+                                      ("joiner" in case["observers"] and case.get("joiner_ext") == ".raw")):
+            classes.add("stale_temporary_wav_present")
         if case.get("relative"):
             classes.add("relative_file_names")
         if case.get("idle_storm") and run.sched.timeouts >= 500:
@@ -322,6 +354,16 @@ def explicit_cases():
          "observers": ["player", "command"], "choices": [0, 1, 2] * 30},
         {"audio": dict(a, B=1, pat="10" * 45, tail=[0, 0]), "win": [1, 1, 0, False, False], "saver": {"cache": 0.0},
          "observers": ["rec"], "choices": [-1] * 700, "long": True},
+        {"audio": quiet, "win": [1, 3, 0, False, False], "saver": None, "observers": ["rec", "print"], "logger": True,
+         "choices": [2, 1, 0] * 10},
+        {"audio": a, "win": [2, 4, 1, False, False], "saver": None, "observers": ["rec", "print"], "logger": True,
+         "overlap": True, "choices": [0, 1, 2, 3] * 20},
+        {"audio": a, "win": [2, 4, 1, False, False], "saver": {"cache": 0.02, "ext": ".raw"}, "observers": ["rec", "joiner"],
+         "joiner_ext": ".raw", "join_sil": [2, 0], "stale_tmp": True, "mr": [21, 0], "logger": True, "choices": [0, 1, 2, 3, 4] * 20},
+        {"audio": a, "win": [2, 4, 1, False, False], "saver": {"cache": 1000.0}, "observers": ["rec"], "mr": [17, 0.75],
+         "choices": [-1] * 20 + [0, 1, 2, 3] * 20},
+        {"audio": dict(a, B=1, sr=10, ch=1, sw=1, al=60, pat="10" * 4200, tail=[0, 0]), "win": [1, 1, 0, False, False], "saver": None,
+         "observers": ["rec", "print"], "choices": [], "free_only": True, "logger": True},
     ]
 
 
@@ -360,6 +402,13 @@ def strategy(draw, maxwin, free=False):
     c["clock_us"] = draw(st.one_of(st.none(), st.sampled_from([0, 1, 499, 500, 999499, 999500, 999999]), st.integers(0, 999999)))
     c["tok_spell"] = draw(st.sampled_from([{}, {}, {"eth": "eth"}, {"uc": "uc"}, {"eth": "eth", "uc": "uc"},
                                            {"validator": "validator"}, {"validator": "val"}]))
+    c["logger"] = draw(st.booleans())
+    c["stale_tmp"] = draw(st.booleans())
+    if not c["saver"] and B % 2 == 0:
+        c["overlap"] = draw(rarely(4))
+    if draw(rarely(4)):
+        nsamp = len(c["audio"]["pat"]) * B + c["audio"]["tail"][0]
+        c["mr"] = [draw(st.integers(1, max(nsamp + 2, 1))), draw(st.sampled_from([0, 0, 0.25, 0.75]))]
     if draw(rarely(25)):
         # one consumer's queue wait times out hundreds of times in a row before anything arrives
         c["choices"] = [0] * draw(st.integers(600, 1300)) + c["choices"][:100]
